@@ -251,7 +251,15 @@ LIMITS = r'''
   indexing is deliberately a view of hc / hr1 / hr2 (pinned value by value in the library's own tests), while
   the parent tensors are one non-unique antisymmetrised choice; the property's "indexing" clause is about
   tensors that *are* the coefficient arrays, so the check was removed (DOCI arithmetic and the parent tensors
-  stay judged through the pair-qubit operator).
+  stay judged through the pair-qubit operator).  Running the quick checks under further
+  PRNG seeds (2..5) exposed two more errors of the machinery on the unchanged tree: (a) C16 chose manual fixed
+  positions in the support of the *original* stabilizers; a position on which the stabilizer, once cleared from the
+  earlier fixed positions, acts trivially cannot be fixed at all (no correct answer exists, the property quantifies over
+  admissible positions) - the generator now follows the documented elimination and only proposes admissible positions;
+  (b) a C01 program whose dumps grew to a 6 MB Coq literal made the evaluation time out, which was reported as a broken
+  obligation - programs beyond 2500 dumped (variable, term) entries are now discarded and counted.  A first version of
+  the large-size `ffft` check built dense 2^15 x 2^15 permutation matrices and never finished; it now simulates the
+  circuit decomposed into two-qubit gates.
 
 ---------------------------------------------------------------------------------------------
 
